@@ -94,9 +94,11 @@ FileNode(p, md) == [k |-> "f", ents |-> <<>>, m |-> p, md |-> md]
 \*   le_nofinal  LF, last line unterminated
 \*   le_seps  LF line ends, and FF / VT / U+0085 / U+2028 INSIDE lines (line ends for str.splitlines(), not for
 \*            universal newlines)
-\* Named deviation TextSplitsLikeSplitlines (pinned tree): VFSZip.open(mode="r") wraps the member in a
-\* codecs.StreamReader, whose readline()/readlines() split with str.splitlines() - also at FF, VT, FS.., U+0085,
-\* U+2028 - so a le_seps member is cut into more lines than its twin on disk (finding C16-text-member-splitlines).
+\* VFSZip.open(mode="r") wraps the member in io.TextIOWrapper(encoding="utf-8", errors=errors): exactly the line
+\* semantics of a text file on disk (universal newlines; FF, VT, U+0085, U+2028 are ordinary characters), so every
+\* class reads the same inside the archive and in the twin.  (Pinned tree: a codecs.StreamReader, which cuts lines
+\* with str.splitlines() - finding C16-text-member-splitlines, repaired in /repo 9d1e32d; mutants/C16-text-open-streamreader
+\* puts it back.)
 LineEndClasses == {"le_crlf", "le_cr", "le_mixed", "le_nofinal", "le_seps"}
 MetaClasses == {"std", "dt0", "dtoor", "dt2107", "stored", "empty", "dos", "mode0"} \cup LineEndClasses
 StatDefined(md) == md \in MetaClasses
